@@ -75,7 +75,11 @@ func runSolverTimed(s solverSpec, file string, ms int, hardMs int) ([]string, []
 }
 
 func runSolver(s solverSpec, file string, ms int, hardMs int) (string, error) {
-	ctx, cancel := context.WithTimeout(context.Background(), time.Duration(hardMs)*time.Millisecond)
+	return runSolverCtx(context.Background(), s, file, ms, hardMs)
+}
+
+func runSolverCtx(parent context.Context, s solverSpec, file string, ms int, hardMs int) (string, error) {
+	ctx, cancel := context.WithTimeout(parent, time.Duration(hardMs)*time.Millisecond)
 	defer cancel()
 	argv := s.argv(file, ms)
 	cmd := exec.CommandContext(ctx, argv[0], argv[1:]...)
@@ -96,54 +100,80 @@ func SolveUnit(r *UnitResult, cfg SolverCfg) {
 	if r.Unsupported != "" || len(r.Obs) == 0 || os.Getenv("GOVC_NOSOLVE") != "" {
 		return
 	}
-	script, order := r.IncrementalScript()
+	var order []*Obligation
+	runs := append([]int{0}, r.ModularCuts()...)
+	type runRes struct {
+		order   []*Obligation
+		results []string
+		times   []int64
+		errs    []string
+	}
+	rr := make([]runRes, len(runs))
+	var rwg sync.WaitGroup
+	for k, cut := range runs {
+		script, ord := r.IncrementalScript(cfg.QuickMs, cut)
+		rr[k].order = ord
+		if len(ord) == 0 {
+			continue
+		}
+		dirk := filepath.Join(cfg.WorkDir, mangle(r.Unit))
+		os.MkdirAll(dirk, 0o755)
+		file := filepath.Join(dirk, fmt.Sprintf("unit%d.smt2", k))
+		os.WriteFile(file, []byte(script), 0o644)
+		rwg.Add(1)
+		go func(k int, file string, n int) {
+			defer rwg.Done()
+			rr[k].results, rr[k].times, rr[k].errs, _ = runSolverTimed(solvers[0], file, cfg.QuickMs, cfg.QuickMs*(n+2)+10000)
+		}(k, file, len(ord))
+	}
+	rwg.Wait()
 	dir := filepath.Join(cfg.WorkDir, mangle(r.Unit))
-	os.MkdirAll(dir, 0o755)
-	file := filepath.Join(dir, "unit.smt2")
-	os.WriteFile(file, []byte(script), 0o644)
-	results, times, errs, _ := runSolverTimed(solvers[0], file, cfg.QuickMs, cfg.QuickMs*(len(order)+2)+10000)
-	ri := 0
-	for _, ob := range order {
-		res := "unknown"
-		obMs := int64(0)
-		riStart := ri
-		if len(ob.Parts) > 0 {
-			res = "unsat"
-			ob.FailPart = -1
-			ob.failParts = nil
-			for pi := range ob.Parts {
-				pr := "unknown"
-				if ri < len(results) {
-					pr = results[ri]
-				}
-				ri++
-				if pr != "unsat" {
-					ob.failParts = append(ob.failParts, pi)
-					if res == "unsat" {
-						res = pr
-						ob.FailPart = pi
+	for _, x := range rr {
+		order = append(order, x.order...)
+		results, times, errs := x.results, x.times, x.errs
+		ri := 0
+		for _, ob := range x.order {
+			res := "unknown"
+			obMs := int64(0)
+			riStart := ri
+			if len(ob.Parts) > 0 {
+				res = "unsat"
+				ob.FailPart = -1
+				ob.failParts = nil
+				for pi := range ob.Parts {
+					pr := "unknown"
+					if ri < len(results) {
+						pr = results[ri]
+					}
+					ri++
+					if pr != "unsat" {
+						ob.failParts = append(ob.failParts, pi)
+						if res == "unsat" {
+							res = pr
+							ob.FailPart = pi
+						}
 					}
 				}
+			} else {
+				if ri < len(results) {
+					res = results[ri]
+				}
+				ri++
 			}
-		} else {
-			if ri < len(results) {
-				res = results[ri]
+			for k := riStart; k < ri && k < len(times); k++ {
+				obMs += times[k]
 			}
-			ri++
-		}
-		for k := riStart; k < ri && k < len(times); k++ {
-			obMs += times[k]
-		}
-		if len(errs) > 0 {
-			res = "error"
-			ob.Detail = strings.Join(errs, "; ")
-			if len(ob.Detail) > 600 {
-				ob.Detail = ob.Detail[:600]
+			if len(errs) > 0 {
+				res = "error"
+				ob.Detail = strings.Join(errs, "; ")
+				if len(ob.Detail) > 600 {
+					ob.Detail = ob.Detail[:600]
+				}
 			}
+			ob.Result = res
+			ob.Backend = solvers[0].name + " (incremental)"
+			ob.Ms = obMs
 		}
-		ob.Result = res
-		ob.Backend = solvers[0].name + " (incremental)"
-		ob.Ms = obMs
 	}
 	// fallback / cross-check
 	var wg sync.WaitGroup
@@ -151,7 +181,7 @@ func SolveUnit(r *UnitResult, cfg SolverCfg) {
 	for _, ob := range order {
 		need := false
 		if ob.Cover {
-			need = ob.Result != "sat"
+			need = ob.Result == "unsat" // confirm a vacuity finding standalone; unknown is inconclusive
 		} else {
 			need = ob.Result != "unsat"
 		}
@@ -196,10 +226,12 @@ func standalone(r *UnitResult, ob *Obligation, cfg SolverCfg, dir string) {
 		ms     int64
 	}
 	ch := make(chan res, len(solvers))
+	raceCtx, raceCancel := context.WithCancel(context.Background())
+	defer raceCancel()
 	for _, s := range solvers {
 		go func(s solverSpec) {
 			t0 := time.Now()
-			out, err := runSolver(s, file, cfg.FallbackMs, cfg.FallbackMs+5000)
+			out, err := runSolverCtx(raceCtx, s, file, cfg.FallbackMs, cfg.FallbackMs+5000)
 			first := "unknown"
 			for _, l := range strings.Split(out, "\n") {
 				l = strings.TrimSpace(l)
@@ -221,7 +253,13 @@ func standalone(r *UnitResult, ob *Obligation, cfg SolverCfg, dir string) {
 	wasUnsat := ob.Result == "unsat" && !ob.Cover
 	var all []res
 	for range solvers {
-		all = append(all, <-ch)
+		x := <-ch
+		all = append(all, x)
+		// the race is decided by the first definite answer, unless every solver must be heard (cross-check)
+		if !wasUnsat && ((!ob.Cover && (x.first == "unsat" || x.first == "sat")) || (ob.Cover && (x.first == "sat" || x.first == "unsat"))) {
+			raceCancel()
+			break
+		}
 	}
 	want := "unsat"
 	if ob.Cover {
